@@ -62,7 +62,14 @@ def main():
                                           "existing_tests_pass_with_change"))
     res["confirmed"] = confirmed
     res["checks"] = {}
-    if confirmed:
+    if confirmed and os.environ.get("SEED_ISO") == "1":
+        # isolated mode: scratch worktree + copy of /verif (see seed_iso.py); /repo is not touched
+        rc, out = sh([sys.executable, os.path.join(VERIF, "lib", "seed_iso.py"), name, patch] + checks, timeout=14400)
+        line = [l for l in out.splitlines() if l.startswith("{")]
+        res["checks"] = json.loads(line[-1])["checks"] if line else {"error": out[-500:]}
+        res["caught_by"] = [c for c, v in res["checks"].items() if isinstance(v, dict) and v.get("exit") == 1 and v.get("violations", 0) > 0]
+        res["mode"] = "isolated copy"
+    elif confirmed:
         rc, out = sh("git -C /repo status --porcelain")
         assert out.strip() == "", "/repo is not clean: " + out
         try:
@@ -87,8 +94,10 @@ def main():
                                                    "demo_passes_without_change")},
             "what_was_run": ["scratch worktree of /repo: cargo test --offline (existing suite) with the change; "
                              "cargo test --offline --test zz_seeded_demo with and without the change",
-                             "git -C /repo apply patch.diff; " + "; ".join("./check %s --tier quick" % c for c in checks)
-                             + "; git -C /repo checkout -- ."],
+                             ("scratch worktree with patch.diff applied + a copy of /verif whose harness builds against it; "
+                              if res.get("mode") else "git -C /repo apply patch.diff; ")
+                             + "; ".join("./check %s --tier quick" % c for c in checks)
+                             + ("" if res.get("mode") else "; git -C /repo checkout -- .")],
             "checks": res["checks"], "caught_by": res.get("caught_by", [])}
     with open(os.path.join(d, "meta.json"), "w") as f:
         json.dump(meta, f, indent=1)
